@@ -231,9 +231,9 @@ def _sh(shapes: typing.Sequence[tuple[int, int]], deep: bool = False) -> list[di
     quick=_sh(((2, 2), (3, 1), (1, 3))),
     thorough=_sh(((2, 2), (3, 1), (1, 3), (3, 2), (2, 3)), deep=True),
     per_prop={
-        "C01": {"quick": _sh(((2, 2),))},
-        "C10": {"quick": _sh(((2, 2),))},
-        "C07": {"quick": _sh(((2, 2), (1, 3)))},
+        "C01": {"quick": _sh(((2, 1), (1, 2)))},
+        "C10": {"quick": _sh(((2, 1), (1, 2)))},
+        "C07": {"quick": _sh(((2, 2),))},
         "C09": {"quick": _sh(((2, 2), (3, 1)))},
     },
     example=dict(N=2, K=1, new_avail=False,
